@@ -1,7 +1,7 @@
 (* Entry points [sx -> sx] for the schema pipeline: decode a case, run the model, encode what the
    harness observes of the Go run. *)
 From Coq Require Import List ZArith Bool.
-From Verif Require Import Base.Sx Base.GoVal Base.F64 Schema.Ast Schema.Pipeline Schema.Draft4 Schema.Classes.
+From Verif Require Import Base.Sx Base.GoVal Base.F64 Schema.Ast Schema.Pipeline Schema.Simple Schema.Draft4 Schema.Classes.
 Import ListNotations.
 Open Scope Z_scope.
 
@@ -36,6 +36,7 @@ Fixpoint of_goval_fuel (fuel : nat) (v : goval) : sx :=
                                           | KUint => 5 | KUint8 => 6 | KUint16 => 7 | KUint32 => 8 | KUint64 => 9 end); A z]
       | VJnum lit _ _ => L [A 5; A lit]
       | VArr id l => L [A 6; A id; L (map (of_goval_fuel f) l)]
+      | VSlice et l => L [A 8; A et; L (map (of_goval_fuel f) l)]
       | VObj id m => L [A 7; A id; L (map (fun kv => L [A (fst kv); of_goval_fuel f (snd kv)]) m)]
       end
   end.
@@ -92,5 +93,36 @@ Definition run_f64 (s : sx) : sx :=
   | L [A 8; A z] => A (f_of_Z z)
   | L [A 9; A a] => ofBool (f_is_json_int a)
   | L [A 10; A a; A b] => A (match f_mult_of a b with MOk => 0 | MNotMultiple => 1 | MNotPositive => 2 end)
+  | _ => sx_err
+  end.
+
+(* parameter / header validators: (oracles sroot value) -> () for a nil result, (result) otherwise *)
+Definition run_simple (s : sx) : sx :=
+  match s with
+  | L [orc; root; data] =>
+      match get_oracles orc, get_sroot root, get_goval data with
+      | Some orc, Some root, Some data =>
+          of_outcome (fun o => match o with None => L [A 0; L []] | Some r => L [A 0; L [of_res r]] end)
+                     (simple_validate orc flocq_ops root data)
+      | _, _, _ => sx_err
+      end
+  | _ => sx_err
+  end.
+
+(* exported numeric helpers: (fn value constraint exclusive) -> (valid code) *)
+Definition run_helper (s : sx) : sx :=
+  match s with
+  | L [A fn; v; A c; excl] =>
+      match get_goval v, getBool excl with
+      | Some v, Some excl =>
+          if Z.eqb fn 0 then (if max_native flocq_ops v c excl then L [A 0; A C_MAX] else L [A 1; A 0])
+          else if Z.eqb fn 1 then (if min_native flocq_ops v c excl then L [A 0; A C_MIN] else L [A 1; A 0])
+          else match mult_native flocq_ops v c with
+               | MOk => L [A 1; A 0]
+               | MNotMultiple => L [A 0; A C_MULTIPLE_OF]
+               | MNotPositive => L [A 0; A C_MULT_POSITIVE]
+               end
+      | _, _ => sx_err
+      end
   | _ => sx_err
   end.
